@@ -51,6 +51,9 @@ func (c15) Generate(r *engine.Rand, index int, tier string) *engine.Scenario {
 		sc.Class = "rescene"
 		sc.SetP("rescene", int64(r.Range(1, 2)))
 		sc.SetP("off_at", int64(r.Range(1, 17556)))
+		if r.Chance(1, 3) {
+			sc.SetP("off_at", int64(r.Range(16416, 17556))) // in (or just before) the vertical blank, where games do it
+		}
 		sc.SetP("off_for", int64(r.Range(1, 3000)))
 	}
 	sc.Cycles = 5 * 17556
@@ -130,6 +133,11 @@ func c15Scene(seed uint64) *dmgref.Scene {
 	s.LCDC = 0x81 | r.Byte()&0x7a // LCD on, BG on, 8x8 objects
 	s.SCX, s.SCY = r.Byte(), r.Byte()
 	s.WX, s.WY = uint8(r.Range(7, 166)), uint8(r.Intn(160))
+	if r.Chance(1, 5) {
+		s.WX = uint8(r.Range(158, 166)) // a window only a few pixels wide at the right edge
+		s.LCDC |= 0x20
+		s.WY = uint8(r.Intn(100))
+	}
 	if r.Chance(1, 3) {
 		// the two coordinate systems aligned or nearly aligned with each other: the background row/column
 		// under the window's first row/last column is the same map row/column, one before or one after
@@ -157,6 +165,10 @@ func c15Scene(seed uint64) *dmgref.Scene {
 	var perLine [176]int
 	crowd := 0
 	crowdY := uint8(r.Range(8, 150))
+	edgeCrowds := r.Chance(1, 5) // objects crowding the first lines and the last lines of the frame
+	if edgeCrowds && n < 16 {
+		n = 16
+	}
 	if r.Chance(1, 3) {
 		crowd = 10 // exactly ten objects share some lines: the most a line may hold
 		if n < 10 {
@@ -171,6 +183,27 @@ func c15Scene(seed uint64) *dmgref.Scene {
 				perLine[l]++
 			}
 			objs = append(objs, obj{y, x, r.Byte(), r.Byte() & 0xf0})
+			continue
+		}
+		if edgeCrowds && i < 16 {
+			if i < 8 {
+				y = uint8(r.Range(9, 16)) // covers line 0
+			} else {
+				y = uint8(r.Range(152, 159)) // covers line 143
+			}
+			x = uint8(r.Range(8, 160))
+			okLine := true
+			for l := int(y); l < int(y)+8 && l < 176; l++ {
+				if perLine[l] >= 10 {
+					okLine = false
+				}
+			}
+			if okLine {
+				for l := int(y); l < int(y)+8 && l < 176; l++ {
+					perLine[l]++
+				}
+				objs = append(objs, obj{y, x, r.Byte(), r.Byte() & 0xf0})
+			}
 			continue
 		}
 		switch r.Intn(6) {
